@@ -14,7 +14,19 @@
        delivery that makes the model emit a message must emit exactly the next
        observed message.  Live events still queued in the router child at the
        end of a window may be delivered in a later window (the queue forwarder
-       can lag behind the sentinel).  The SQLite child's answer to a REQ is
+       can lag behind the sentinel).  What a window leaves behind is therefore
+       not determined by the window alone: in which order a Publish queued its
+       copies shows only when they arrive, and a late copy for a subscription
+       id that a REQ re-uses can have been swallowed by the merge session
+       during that REQ (a duplicate of the stored answer) or still be queued.
+       So the search runs over the WHOLE session: the continuation of a
+       window's search is the search of the next window, and a failure there
+       resumes the alternatives of the earlier windows.  States in which a
+       window was entered and nothing worked are remembered (window number and
+       the router child's queue — the rest of the state at a window boundary
+       does not depend on the schedule), so that the many interleavings of a
+       window that end in the same state are followed up once.  The SQLite
+       child's answer to a REQ is
        taken as given (the same query is put to the same database right before
        the REQ; the order among equal created_at is SQLite's) and is checked
        against the relational model of Sql.v by [SqlCheckBase.model_accepts].
@@ -71,47 +83,143 @@ Definition settled (s : msys) : bool :=
 Definition head_is_event (l : list smsg) : bool :=
   match l with m :: _ => smsg_is_event m | [] => false end.
 
-(** depth-first search over deliveries.  [depth] bounds the length of a
-    branch (every delivery removes a pending message), [budget] the number of
-    nodes visited; [strict]: at the end nothing at all may be pending. *)
-Fixpoint search (depth : nat) (budget : Z) (strict : bool) (s : msys) (obs : list smsg) : option msys * Z :=
+(** equality of merge-session states (for remembering search nodes) *)
+Definition kv_eqb {B} (eqb : B -> B -> bool) (a b : str * B) : bool :=
+  str_eqb (fst a) (fst b) && eqb (snd a) (snd b).
+Definition map_eqb {B} (eqb : B -> B -> bool) : list (str * B) -> list (str * B) -> bool :=
+  list_eqb (kv_eqb eqb).
+Definition lm_eqb (a b : lmatcher) : bool := rfilter_eqb (lm_f a) (lm_f b) && Z.eqb (lm_cnt a) (lm_cnt b).
+Definition okm_eqb (a b : Merge.okm) : bool :=
+  str_eqb (Merge.ok_id a) (Merge.ok_id b) && Bool.eqb (Merge.ok_acc a) (Merge.ok_acc b) &&
+  str_eqb (Merge.ok_prefix a) (Merge.ok_prefix b) && str_eqb (Merge.ok_text a) (Merge.ok_text b).
+Definition cntm_eqb (a b : Merge.cntm) : bool :=
+  str_eqb (Merge.c_sub a) (Merge.c_sub b) && Z.eqb (Merge.c_count a) (Merge.c_count b) &&
+  opt_eqb Bool.eqb (Merge.c_approx a) (Merge.c_approx b).
+Definition mstate_eqb (a b : Merge.state) : bool :=
+  let ra := Merge.st_rs a in let rb := Merge.st_rs b in
+  let oa := Merge.st_os a in let ob := Merge.st_os b in
+  let ca := Merge.st_cs a in let cb := Merge.st_cs b in
+  Bool.eqb (Merge.st_dead a) (Merge.st_dead b) &&
+  Nat.eqb (Merge.rs_size ra) (Merge.rs_size rb) &&
+  map_eqb (list_eqb Bool.eqb) (Merge.rs_eose ra) (Merge.rs_eose rb) &&
+  map_eqb (list_eqb str_eqb) (Merge.rs_seen ra) (Merge.rs_seen rb) &&
+  map_eqb (opt_eqb event_eqb) (Merge.rs_last ra) (Merge.rs_last rb) &&
+  map_eqb (list_eqb lm_eqb) (Merge.rs_matcher ra) (Merge.rs_matcher rb) &&
+  Nat.eqb (Merge.os_size oa) (Merge.os_size ob) &&
+  map_eqb Z.eqb (Merge.os_pending oa) (Merge.os_pending ob) &&
+  map_eqb (list_eqb (list_eqb okm_eqb)) (Merge.os_s oa) (Merge.os_s ob) &&
+  Nat.eqb (Merge.cs_size ca) (Merge.cs_size cb) &&
+  map_eqb Z.eqb (Merge.cs_pending ca) (Merge.cs_pending cb) &&
+  map_eqb (list_eqb (list_eqb cntm_eqb)) (Merge.cs_counts ca) (Merge.cs_counts cb).
+
+(** What the search remembers.
+    [m_win]: (window number, the router child's pending list) with which a
+    window was entered and the rest of the session could not be explained.
+    [m_node]: search nodes inside a window from which it could not: window
+    number, observations left, lengths of the pending lists of child 0 and
+    child 2 (they only shrink from the front), the pending list of child 1
+    and the merge session's state.  Within one window everything else in the
+    state is the same at every node.  Without [m_node] the interleavings of a
+    window (thousands for a REQ with a few stored events, nearly all of them
+    ending in the same state) would each be walked again whenever a later
+    window fails. *)
+Record nodekey := mkNK {
+  nk_win : nat; nk_obs : nat; nk_p0 : nat; nk_p2 : nat; nk_p1 : list smsg; nk_merge : Merge.state }.
+
+(** ([if] and not [&&]: under [vm_compute] both arguments of [andb] are
+    evaluated; the cheap tests must cut the comparison short) *)
+Definition nk_eqb (a b : nodekey) : bool :=
+  if Nat.eqb (nk_win a) (nk_win b) then
+    if Nat.eqb (nk_obs a) (nk_obs b) then
+      if Nat.eqb (nk_p0 a) (nk_p0 b) then
+        if Nat.eqb (nk_p2 a) (nk_p2 b) then
+          if Nat.eqb (length (nk_p1 a)) (length (nk_p1 b)) then
+            if smsgs_eqb (nk_p1 a) (nk_p1 b) then mstate_eqb (nk_merge a) (nk_merge b) else false
+          else false
+        else false
+      else false
+    else false
+  else false.
+
+Record memo := mkMemo { m_win : list (nat * list smsg); m_node : list nodekey }.
+
+Definition memo0 : memo := mkMemo [] [].
+
+Definition in_memo (i : nat) (q : list smsg) (mm : memo) : bool :=
+  existsb (fun x => if Nat.eqb (fst x) i then smsgs_eqb (snd x) q else false) (m_win mm).
+Definition add_win (i : nat) (q : list smsg) (mm : memo) : memo := mkMemo ((i, q) :: m_win mm) (m_node mm).
+Definition add_node (k : nodekey) (mm : memo) : memo := mkMemo (m_win mm) (k :: m_node mm).
+
+Definition key_of (i : nat) (s : msys) (obs : list smsg) : nodekey :=
+  mkNK i (length obs) (length (y_p0 s)) (length (y_p2 s)) (y_p1 s) (y_merge s).
+
+(** result of a search: the final state if the whole rest of the session could
+    be explained, the budget that is left, what is remembered *)
+Definition sres := (option msys * Z * memo)%type.
+
+Definition fail_with (b : Z) (mm : memo) : sres := (None, b, mm).
+
+(** depth-first search over deliveries in window [i].  [depth] bounds the
+    length of a branch (every delivery removes a pending message), [budget]
+    the number of nodes visited in the whole session; [strict]: at the end
+    nothing at all may be pending.  When the observations of the window are
+    used up and the state is settled, the continuation [k] (the rest of the
+    session; the same for every node of a window) is asked; if it fails, the
+    search goes on: further deliveries that emit nothing lead to other end
+    states. *)
+Fixpoint search (depth : nat) (budget : Z) (mm : memo) (i : nat) (strict : bool) (s : msys) (obs : list smsg)
+         (k : msys -> Z -> memo -> sres) : sres :=
   match depth with
-  | O => (None, budget)
+  | O => fail_with budget mm
   | S d =>
-      if budget <=? 0 then (None, 0) else
-      if y_dead s then (None, budget - 1) else
-      if (if strict then quietb s else settled s) && match obs with [] => true | _ => false end
-      then (Some s, budget - 1)
-      else
-        let try (x : src) (k : Z -> option msys * Z) (b : Z) : option msys * Z :=
+      if budget <=? 0 then fail_with 0 mm else
+      if y_dead s then fail_with (budget - 1) mm else
+      let key := key_of i s obs in
+      if existsb (nk_eqb key) (m_node mm) then fail_with (budget - 1) mm else
+      let here : sres :=
+        if (if strict then quietb s else settled s) && match obs with [] => true | _ => false end
+        then k s (budget - 1) mm
+        else fail_with (budget - 1) mm in
+      match here with
+      | (Some s2, b2, mm2) => (Some s2, b2, mm2)
+      | (None, b1, mm1) =>
+        let try (x : src) (kont : Z -> memo -> sres) (b : Z) (m0 : memo) : sres :=
           match pop s x with
-          | None => k b
+          | None => kont b m0
           | Some _ =>
               let '(s', _, o) := jstep None s (LDel x) in
               let r :=
                 match o with
-                | [] => search d b strict s' obs
+                | [] => search d b m0 i strict s' obs k
                 | [m] => match obs with
-                         | m' :: obs' => if smsg_eqb m m' then search d b strict s' obs' else (None, b)
-                         | [] => (None, b)
+                         | m' :: obs' => if smsg_eqb m m' then search d b m0 i strict s' obs' k else fail_with b m0
+                         | [] => fail_with b m0
                          end
-                | _ => (None, b)
+                | _ => fail_with b m0
                 end in
               match r with
-              | (Some s2, b2) => (Some s2, b2)
-              | (None, b2) => k b2
+              | (Some s2, b2, mm2) => (Some s2, b2, mm2)
+              | (None, b2, mm2) => kont b2 mm2
               end
           end in
-        try Src0
-          (try Src2
-             (try Src1
-                (fun b => if head_is_event (y_p1 s) then try Src1M (fun b' => (None, b')) b else (None, b))))
-          (budget - 1)
+        let r :=
+          try Src0
+            (try Src2
+               (try Src1
+                  (fun b m0 => if head_is_event (y_p1 s) then try Src1M fail_with b m0 else fail_with b m0)))
+            b1 mm1 in
+        match r with
+        | (Some s2, b2, mm2) => (Some s2, b2, mm2)
+        | (None, b2, mm2) => (None, b2, add_node key mm2)
+        end
+      end
   end.
 
 Definition pending_total (s : msys) : nat := length (y_p0 s) + length (y_p1 s) + length (y_p2 s).
 
-Definition search_budget : Z := 300000.
+(** nodes visited per session, all windows and all resumptions together (a
+    session that is explained at the first attempt visits a few hundred) *)
+Definition search_budget : Z := 1500000.
 
 (** all orders in which the Go map of the connection's subscriptions may be walked *)
 Fixpoint insert_all {A} (x : A) (l : list A) : list (list A) :=
@@ -132,7 +240,10 @@ Definition matching_keys (e : event) (m : Router.submap) : list str :=
     its copies arrive, possibly windows later: the first candidate is read off
     the observations still to come ([future]), skipping for each subscription
     the copies of the same event that are still queued from an earlier
-    Publish; then every permutation. *)
+    Publish; then every permutation.  (The first candidate is only a good
+    guess: an [EVENT sub e] to come may also be a stored answer to a later REQ
+    that re-uses [sub]; then a later window fails and the search comes back
+    for the next permutation.) *)
 Definition is_copy_of (sub : str) (e : event) (m : smsg) : bool :=
   match m with SEvent s x => str_eqb s sub && event_eqb x e | _ => false end.
 
@@ -156,19 +267,23 @@ Definition guess_ord (s : msys) (e : event) (ks : list str) (future : list smsg)
     if p <? 0 then big else p in
   List.map snd (fold_right insert_pos [] (List.map (fun k => (pos k, k)) ks)).
 
+Definition strs_eqb : list str -> list str -> bool := list_eqb str_eqb.
+
 Definition ords_for (s : msys) (m : cmsg) (future : list smsg) : list (list str) :=
   match m with
   | CEvent e => match matching_keys e (y_subs s) with
                 | [] | [_] => [[]]
-                | ks => guess_ord s e ks future :: perms ks
+                | ks => let g := guess_ord s e ks future in
+                        g :: filter (fun o => negb (strs_eqb o g)) (perms ks)
                 end
   | _ => [[]]
   end.
 
 Definition sentinel_msg (sub : str) : cmsg := CCount sub [empty_filter].
 
-(** one window from a settled state: the model's state afterwards *)
-Definition walk_window (ml : Z) (s : msys) (w : win) (future : list smsg) : option msys :=
+(** one window from a settled state, then the rest of the session [k] *)
+Definition walk_window (ml : Z) (i : nat) (s : msys) (w : win) (future : list smsg)
+           (b0 : Z) (mm0 : memo) (k : msys -> Z -> memo -> sres) : sres :=
   let s0 := jflush s in
   let ans := if w_sqerr w then None else Some (w_sq w) in
   let ans_ok :=
@@ -178,70 +293,71 @@ Definition walk_window (ml : Z) (s : msys) (w : win) (future : list smsg) : opti
           (if w_sqerr w then SqlCheckBase.QErr else SqlCheckBase.QOk (w_sq w))
     | _ => true
     end in
-  if negb ans_ok then None else
+  if negb ans_ok then fail_with b0 mm0 else
+  (* the cache lists what the model's cache lists (the cache's state does not
+     depend on the schedule) *)
+  let k' (s3 : msys) (b : Z) (mm : memo) : sres :=
+    match w_msg w with
+    | CEvent _ => if events_eqb (c_listing (y_cache s3)) (w_list w) then k s3 b mm else fail_with b mm
+    | _ => k s3 b mm
+    end in
   (* live events left over from earlier windows may reach the merge session
      before it reads the message (they were on their way when it was sent):
-     the first [k] of them are delivered first, for k = 0, 1, ... *)
-  let after_reads (ord : list str) (sa : msys) (obs : list smsg) : option msys :=
+     the first [n] of them are delivered first, for n = 0, 1, ... *)
+  let after_reads (ord : list str) (sa : msys) (obs : list smsg) (b : Z) (mm : memo) : sres :=
     let s1 := fst (fst (jstep ans (set_in sa [w_msg w; sentinel_msg (w_sent w)]) (LNext ord))) in
     let s2 := fst (fst (jstep ans s1 (LNext []))) in
-    fst (search (S (pending_total s2)) search_budget false s2 obs) in
-  let fix early (k : nat) (ord : list str) (sa : msys) (obs : list smsg) : option msys :=
-    match after_reads ord sa obs with
-    | Some s3 => Some s3
-    | None =>
-        match k with
-        | O => None
-        | S k' =>
+    search (S (pending_total s2)) b mm i false s2 obs k' in
+  let fix early (n : nat) (ord : list str) (sa : msys) (obs : list smsg) (b : Z) (mm : memo) : sres :=
+    match after_reads ord sa obs b mm with
+    | (Some s3, b1, mm1) => (Some s3, b1, mm1)
+    | (None, b1, mm1) =>
+        match n with
+        | O => fail_with b1 mm1
+        | S n' =>
             match pop sa Src1 with
-            | None => None
+            | None => fail_with b1 mm1
             | Some _ =>
                 let '(sb, _, o) := jstep None sa (LDel Src1) in
                 match o, obs with
-                | [], _ => early k' ord sb obs
-                | [m], m' :: obs' => if smsg_eqb m m' then early k' ord sb obs' else None
-                | _, _ => None
+                | [], _ => early n' ord sb obs b1 mm1
+                | [m], m' :: obs' => if smsg_eqb m m' then early n' ord sb obs' b1 mm1 else fail_with b1 mm1
+                | _, _ => fail_with b1 mm1
                 end
             end
         end
     end in
-  let fix first (ords : list (list str)) : option msys :=
+  let fix first (ords : list (list str)) (b : Z) (mm : memo) : sres :=
     match ords with
-    | [] => None
+    | [] => fail_with b mm
     | ord :: rest =>
-        match early (length (y_p1 s0)) ord s0 (w_obs w) with
-        | Some s3 => Some s3
-        | None => first rest
+        match early (length (y_p1 s0)) ord s0 (w_obs w) b mm with
+        | (Some s3, b1, mm1) => (Some s3, b1, mm1)
+        | (None, b1, mm1) => first rest b1 mm1
         end
     end in
-  match first (ords_for s0 (w_msg w) future) with
-  | None => None
-  | Some s3 =>
-      (* the cache lists what the model's cache lists *)
-      match w_msg w with
-      | CEvent _ => if events_eqb (c_listing (y_cache s3)) (w_list w) then Some s3 else None
-      | _ => Some s3
-      end
-  end.
+  first (ords_for s0 (w_msg w) future) b0 mm0.
 
-Fixpoint walk (ml : Z) (s : msys) (ws : list win) (tail : list smsg) : option msys :=
-  match ws with
-  | [] => Some s
-  | w :: rest =>
-      match walk_window ml s w (w_obs w ++ flat_map w_obs rest ++ tail) with
-      | Some s' => walk ml s' rest tail
-      | None => None
-      end
+(** the windows from number [i] on, then the messages that came after the last
+    window: at the very end nothing may be pending *)
+Fixpoint walk (ml : Z) (i : nat) (ws : list win) (tail : list smsg) (s : msys) (b : Z) (mm : memo) : sres :=
+  if in_memo i (y_p1 s) mm then fail_with b mm else
+  let r :=
+    match ws with
+    | [] => search (S (pending_total s)) b mm i true s tail (fun s' b' mm' => (Some s', b', mm'))
+    | w :: rest =>
+        walk_window ml i s w (w_obs w ++ flat_map w_obs rest ++ tail) b mm
+                    (fun s' b' mm' => walk ml (S i) rest tail s' b' mm')
+    end in
+  match r with
+  | (Some s', b', mm') => (Some s', b', mm')
+  | (None, b', mm') => (None, b', add_win i (y_p1 s) mm')
   end.
 
 Definition model_agrees (cap ml : Z) (ws : list win) (tail : list smsg) : bool :=
-  match walk ml (sys_init Sql.db cap Sql.empty_db []) ws tail with
-  | None => false
-  | Some s =>
-      match fst (search (S (pending_total s)) search_budget true s tail) with
-      | Some _ => true
-      | None => false
-      end
+  match walk ml 0 ws tail (sys_init Sql.db cap Sql.empty_db []) search_budget memo0 with
+  | (Some _, _, _) => true
+  | (None, _, _) => false
   end.
 
 (* ------------------------------------------------------------------ *)
@@ -272,27 +388,41 @@ Definition void_sub (sub : str) (l : list owed) : list owed :=
   List.map (fun x => if str_eqb (o_sub x) sub then mkOwed (o_sub x) (o_ev x) false else x) l.
 
 (** messages that may appear anywhere: live events the client is owed.
-    Returns the owed list after consuming them; [None] when a message is
-    neither owed nor accepted by [own] (the window's own replies). *)
-Fixpoint consume (own : smsg -> bool) (l : list smsg) (ow : list owed) : option (list owed * list smsg) :=
+    [own] accepts the window's own replies.  An EVENT can be BOTH: a REQ that
+    re-uses a subscription id while a live copy for the old subscription is
+    still queued in the router child, and whose stored answer contains the same
+    event — both read [EVENT sub e], and the late copy may come before, among
+    or windows after the stored answer (observed: the queue forwarder lagged
+    eight windows behind under load).  Which of the two a message is cannot be
+    read off the message, and deciding greedily (an earlier version took every
+    such message as the late copy) rejects the real copy when it arrives later.
+    So [consume] returns EVERY attribution: the owed list that remains and the
+    messages taken as the window's own, for each way of reading the messages
+    that are ambiguous; the empty list when some message is neither owed nor
+    accepted by [own].  Only ambiguous messages branch. *)
+Fixpoint consume (own : smsg -> bool) (l : list smsg) (ow : list owed) : list (list owed * list smsg) :=
   match l with
-  | [] => Some (ow, [])
+  | [] => [(ow, [])]
   | m :: r =>
       let as_own :=
-        if own m then
-          match consume own r ow with Some (ow', mine) => Some (ow', m :: mine) | None => None end
-        else None in
+        if own m then List.map (fun x => (fst x, m :: snd x)) (consume own r ow) else [] in
       match m with
       | SEvent sub e =>
-          (* an event the client is owed is taken as that (a live copy that is
-             late may carry the id of the window's own subscription) *)
+          (* an event the client is owed may be that (a live copy that is late
+             may carry the id of the window's own subscription) *)
           match take_owed sub e ow with
-          | Some ow' => consume own r ow'
+          | Some ow' => consume own r ow' ++ as_own
           | None => as_own
           end
       | _ => as_own
       end
   end.
+
+Definition never (_ : smsg) : bool := false.
+
+(** at most this many readings of a session are followed (a reading branches
+    only at an ambiguous message) *)
+Definition max_readings : nat := 32.
 
 Fixpoint split_last {A} (l : list A) : option (list A * A) :=
   match l with
@@ -336,87 +466,82 @@ Definition o_set {B} (k : str) (v : B) (l : list (str * B)) : list (str * B) :=
 Definition o_del {B} (k : str) (l : list (str * B)) : list (str * B) :=
   filter (fun kv => negb (str_eqb k (fst kv))) l.
 
-(** one window.  [body]: the window without the sentinel's reply. *)
-Definition oracle_window (st : ostate) (w : win) : option ostate :=
+(** one window.  [body]: the window without the sentinel's reply.  The result
+    lists the oracle's state after the window for every reading of the window
+    that satisfies the statements; empty = the window violates them. *)
+Definition oracle_window (st : ostate) (w : win) : list ostate :=
   match split_last (w_obs w) with
-  | None => None
+  | None => []
   | Some (body, last) =>
       (* SYS_count_zero, for the sentinel: its single reply closes the window *)
-      if negb (smsg_eqb last (SCount (w_sent w) 0 None)) then None else
-      if existsb (is_cnt_sub (w_sent w)) body then None else
+      if negb (smsg_eqb last (SCount (w_sent w) 0 None)) then [] else
+      if existsb (is_cnt_sub (w_sent w)) body then [] else
       match w_msg w with
       | CEvent e =>
           (* SYS_event_one_ok *)
           let owed1 := o_owed st ++
                        List.map (fun kv => mkOwed (fst kv) e true)
                                 (filter (fun kv => matches_specb e (snd kv)) (o_subs st)) in
-          match consume (is_ok_id (ev_id e)) body owed1 with
-          | Some (ow, [SOk id acc p t]) =>
-              let H' := o_H st ++ [e] in
-              let verdict_ok :=
-                if hist_ok5b H' then Bool.eqb acc (expected_added (o_R st) e) else true in
-              if str_eqb id (ev_id e) && verdict_ok &&
-                 (if acc then true else is_prefix dup_prefix (p ++ t)) &&
-                 (if ev_in e (w_list w) && negb (ev_in e (o_R st)) then acc else true)
-              then Some (mkO (w_list w) H' (o_subs st) ow) else None
-          | _ => None
-          end
+          flat_map (fun r : list owed * list smsg =>
+            match r with
+            | (ow, [SOk id acc p t]) =>
+                let H' := o_H st ++ [e] in
+                let verdict_ok :=
+                  if hist_ok5b H' then Bool.eqb acc (expected_added (o_R st) e) else true in
+                if str_eqb id (ev_id e) && verdict_ok &&
+                   (if acc then true else is_prefix dup_prefix (p ++ t)) &&
+                   (if ev_in e (w_list w) && negb (ev_in e (o_R st)) then acc else true)
+                then [mkO (w_list w) H' (o_subs st) ow] else []
+            | _ => []
+            end) (consume (is_ok_id (ev_id e)) body owed1)
       | CReq sub fs =>
           (* SYS_req_stream *)
           let owed1 := void_sub sub (o_owed st) in
           match split_at_eose sub body with
-          | None => None
+          | None => []
           | Some (pre, post) =>
-              match consume (is_answer_event sub) pre owed1 with
-              | None => None
-              | Some (ow1, mine) =>
-                  let evs := events_for sub mine in
-                  match consume (fun _ => false) post ow1 with
-                  | Some (ow2, _) =>
-                      if forallb (fun x => matches_specb x fs) evs &&
-                         ids_distinctb evs && ts_nonincb evs &&
-                         forallb (fun x => ev_in x (o_R st) || ev_in x (w_sq w) ||
-                                           existsb (fun y => str_eqb (o_sub y) sub && event_eqb (o_ev y) x) owed1) evs &&
-                         negb (existsb (fun m => match m with SEose _ => true | _ => false end) (pre ++ post))
-                      then Some (mkO (o_R st) (o_H st) (o_set sub fs (o_subs st)) ow2) else None
-                  | None => None
-                  end
-              end
+              if existsb (fun m => match m with SEose _ => true | _ => false end) (pre ++ post) then [] else
+              flat_map (fun r : list owed * list smsg =>
+                let (ow1, mine) := r in
+                let evs := events_for sub mine in
+                if forallb (fun x => matches_specb x fs) evs &&
+                   ids_distinctb evs && ts_nonincb evs &&
+                   forallb (fun x => ev_in x (o_R st) || ev_in x (w_sq w) ||
+                                     existsb (fun y => str_eqb (o_sub y) sub && event_eqb (o_ev y) x) owed1) evs
+                then List.map (fun r2 : list owed * list smsg =>
+                                 mkO (o_R st) (o_H st) (o_set sub fs (o_subs st)) (fst r2))
+                              (consume never post ow1)
+                else []) (consume (is_answer_event sub) pre owed1)
           end
       | CCount sub _ =>
           (* SYS_count_zero *)
-          match consume (is_cnt_sub sub) body (o_owed st) with
-          | Some (ow, [m]) => if smsg_eqb m (SCount sub 0 None)
-                              then Some (mkO (o_R st) (o_H st) (o_subs st) ow) else None
-          | _ => None
-          end
+          flat_map (fun r : list owed * list smsg =>
+            match r with
+            | (ow, [m]) => if smsg_eqb m (SCount sub 0 None)
+                           then [mkO (o_R st) (o_H st) (o_subs st) ow] else []
+            | _ => []
+            end) (consume (is_cnt_sub sub) body (o_owed st))
       | CClose sub =>
           (* SYS_close_silent *)
-          match consume (fun _ => false) body (void_sub sub (o_owed st)) with
-          | Some (ow, _) => Some (mkO (o_R st) (o_H st) (o_del sub (o_subs st)) ow)
-          | None => None
-          end
+          List.map (fun r : list owed * list smsg => mkO (o_R st) (o_H st) (o_del sub (o_subs st)) (fst r))
+                   (consume never body (void_sub sub (o_owed st)))
       | CAuth _ =>
-          match consume (fun _ => false) body (o_owed st) with
-          | Some (ow, _) => Some (mkO (o_R st) (o_H st) (o_subs st) ow)
-          | None => None
-          end
+          List.map (fun r : list owed * list smsg => mkO (o_R st) (o_H st) (o_subs st) (fst r))
+                   (consume never body (o_owed st))
       end
   end.
 
-Fixpoint oracle_walk (st : ostate) (ws : list win) : option ostate :=
+(** all readings of the windows that satisfy the statements so far *)
+Fixpoint oracle_walk (sts : list ostate) (ws : list win) : list ostate :=
   match ws with
-  | [] => Some st
-  | w :: rest => match oracle_window st w with Some st' => oracle_walk st' rest | None => None end
+  | [] => sts
+  | w :: rest => oracle_walk (firstn max_readings (flat_map (fun st => oracle_window st w) sts)) rest
   end.
 
-(** SYS_live_after_eose: at the end every live copy that MUST come has come *)
+(** SYS_live_after_eose: at the end every live copy that MUST come has come
+    (under some reading that satisfies all windows) *)
 Definition oracle (ws : list win) (tail : list smsg) : bool :=
-  match oracle_walk o_init ws with
-  | None => false
-  | Some st =>
-      match consume (fun _ => false) tail (o_owed st) with
-      | Some (ow, _) => forallb (fun x => negb (o_must x)) ow
-      | None => false
-      end
-  end.
+  existsb (fun st =>
+             existsb (fun r : list owed * list smsg => forallb (fun x => negb (o_must x)) (fst r))
+                     (consume never tail (o_owed st)))
+          (oracle_walk [o_init] ws).
